@@ -11,7 +11,8 @@ ASSUMPTIONS = [
 RULE = ("histories of up to 8 MergeDocument/Documents/OutputDocuments/Output(fmt)/OutputToWriter calls over 1-2 base documents that use "
         "$merge, $replace, $repeat, $encode, $output and interpolation (cross-document references included), with further layers merged after "
         "output calls; compared call by call with the model (whose observers are pure) and by the implementation-only oracles: repeated output "
-        "is byte-identical, Documents() is unchanged by output, the history without output calls yields the same documents; "
+        "is byte-identical, Documents() is unchanged by output, the history without output calls yields the same documents; the same through MergeFile / MergeFileLayers over 2-3 layer files with output calls "
+        "of every kind in between (implementation only); "
         "non-trivial = at least one output call precedes another call and a directive is present; distinct by hash")
 
 FMTS = ["json", "yaml", "toml", "json-pretty", "jsonl", "yml"]
@@ -186,6 +187,93 @@ def dist_fn(dist, c, a, b):
                 dist[k] = dist.get(k, 0) + 1
 
 
+def file_history_pass(ctx, rng, n, dist):
+    """implementation only, through MergeFileLayers / MergeFile: a chain of layer files is merged file by file with output
+    calls of every kind in between; (1) repeated output calls on one state give the same bytes, (2) Documents() is unchanged
+    by them, (3) the final output equals that of the same merges with no output call in between"""
+    import os
+    from . import c03
+    from .. import evalgen
+    base = os.path.join(ctx.work, "fh")
+    cases_with, cases_without, metas = [], [], []
+    for i in range(n):
+        r = rng.fork("fh%d" % i)
+        d = os.path.join(base, "h%d" % i)
+        os.makedirs(d, exist_ok=True)
+        docs0 = [evalgen.ref_history_doc(r) if hasattr(evalgen, "ref_history_doc") else gen_doc(r) for _ in range(1 + r.below(2))]
+        l1 = [{"extra": r.pick([1, "x", {"k": 1}]), "n": {"q": 1}}]
+        l2 = [{"n": {"z": r.pick([2, [1]])}, "last": True}]
+        files = [("a.yaml", docs0), ("a.b.json", l1), ("a.b.c.yaml", l2)][: 2 + r.below(2)]
+        for name, docs in files:
+            fmt = name.rsplit(".", 1)[1]
+            open(os.path.join(d, name), "w").write(gen.emit(fmt, docs, r))
+        paths = [os.path.join(d, name) for name, _ in files]
+        ops_w, ops_wo = [], []
+        for k, pth in enumerate(paths):
+            op = [r.pick(["mergefileonly", "mergefile"]), pth]    # MergeFile (this file) or MergeFileLayers (with what it inherits from)
+            ops_w.append(op)
+            ops_wo.append(op)
+            for _ in range(r.below(3)):
+                ops_w.append(r.pick([["out"], ["docs"], ["outfmt", "json"], ["outfmt", "yaml"], ["outw", "json-pretty"], ["out"], ["docs"]]))
+        ops_w += [["docs"], ["outfmt", "json"], ["outfmt", "json"], ["docs"]]
+        ops_wo += [["docs"], ["outfmt", "json"]]
+        cases_with.append(["history", {"env": {}}, ops_w])
+        cases_without.append(["history", {"env": {}}, ops_wo])
+        metas.append(paths)
+    a = ctx.impl(cases_with)
+    b = ctx.impl(cases_without)
+    bad = 0
+    for cw, cwo, ra, rb, paths in zip(cases_with, cases_without, a, b, metas):
+        why = None
+        if not isinstance(ra, list) or not isinstance(rb, list) or (ra and ra[0] in ("crash", "panic")):
+            why = "implementation %s" % (str(ra)[:200],)
+        else:
+            why = judge(cw, ra, None) if False else None
+            # (1)+(2): same-state repetition, via the generic judge's implementation-only part
+            last_docs, last_fmt = None, {}
+            for o, r_ in zip(cw[2], ra):
+                if r_[0] == "skipped":
+                    break
+                if o[0].startswith("mergefile"):
+                    last_docs, last_fmt = None, {}
+                elif o[0] == "docs":
+                    if last_docs is not None and not veq(last_docs, r_[1]):
+                        why = "Documents() changed although only output calls happened since the last merge"
+                    last_docs = r_[1]
+                elif o[0] in ("outfmt", "outw"):
+                    key = o[1]
+                    if key in last_fmt and not veq(last_fmt[key], r_[1]):
+                        why = "output in %s differs from the previous call on the same state" % key
+                    last_fmt[key] = r_[1]
+            # (3): as if output had never been requested
+            if why is None and not veq(ra[-3:-1][0] if False else ra[-3], rb[-1]) :
+                why = "final output after interleaved output calls %s differs from the output without them %s" % (hist.short(ra[-3]), hist.short(rb[-1]))
+            if why is None and not veq(ra[-4], rb[-2]):
+                why = "final Documents() after interleaved output calls differ from those without them"
+        if why and len(ctx.violations) < 5:
+            bad += 1
+            ctx.violations.append({"name": "filehist-" + core.vhash(cw[2]), "property": "C19", "kind": "failing-input", "why": why,
+                                   "ops": core.to_jsonable(cw[2]), "files": {os.path.basename(p): open(p).read() for p in paths},
+                                   "class": "c19-file-history"})
+    dist["file_histories"] = n
+    dist["file_histories_all_merges_ok"] = sum(1 for ra in a if isinstance(ra, list) and not any(isinstance(x, list) and x and x[0] == "skipped" for x in ra))
+    return n
+
+
+def gen_doc(r):
+    """a document whose evaluation does something (reference, repeat, interpolation, hidden part)"""
+    k = r.below(5)
+    if k == 0:
+        return {"t": {"x": 1, "l": [1]}, "h": {"$merge": "t", "y": 2}}
+    if k == 1:
+        return {"name": '$"n{v}"', "v": r.pick([1, "s"]), "keep": None}
+    if k == 2:
+        return {"tpl": {"$output": False, "a": [1, 2]}, "use": {"$replace": "tpl.a"}}
+    if k == 3:
+        return {"list": [{"$repeat": 2, "i": "$repeat"}], "e": {"$encode": "json", "a": 1}}
+    return {"plain": r.pick([1, "x", [1, {"a": 2}]]), "m": {"k": "v"}}
+
+
 def run(ctx):
     n = ctx.n(1200, 25000)
     rng = core.Rng(ctx.seed)
@@ -209,7 +297,8 @@ def run(ctx):
                                    "why": judge(small, sim[0], smo[0]) or why, "case": core.to_jsonable(small),
                                    "implementation": core.to_jsonable(sim[0]), "model": core.to_jsonable(smo[0]), "class": "c19-disagreement"})
     dist["oracle_missing_skipped"] = skipped
-    return {"evaluations": len(cases), "distinct_nontrivial": nt, "rule": RULE, "samples": [core.to_jsonable(c[2]) for c in cases[len(corpus):len(corpus) + 2]],
+    nfh = file_history_pass(ctx, core.Rng(ctx.seed + 3), ctx.n(150, 3000), dist)
+    return {"evaluations": len(cases) + nfh, "distinct_nontrivial": nt, "rule": RULE, "samples": [core.to_jsonable(c[2]) for c in cases[len(corpus):len(corpus) + 2]],
             "distribution": dist, "disagreements_checked": len(ctx.violations)}
 
 
